@@ -2,6 +2,9 @@
 // Sanitised (clang ASan+UBSan; valgrind in the thorough tier) launches of the real main() over the documented
 // configuration domain, with simulator-authored input files damaged by explicit, shrinkable fault ops.
 #include "common.hpp"
+#include <csignal>
+#include <fcntl.h>
+#include <sys/wait.h>
 #include <unistd.h>
 
 namespace sim {
@@ -32,6 +35,26 @@ struct C17 : Scenario {
         // the valgrind batch (indices from 500000) is there for what ASan cannot see, use of uninitialised values; that lives in
         // the readers of the three kinds of input file, so every run of that batch carries damaged input files
         const bool vg = index >= 500000;
+        // "... and of the API harness": a sixth of the sanitised runs execute a seeded API-mode plan of another scenario (operation
+        // histories on the field object, map applications on bunch trains, particle histories, the dynamic RF map) in a child of the
+        // sanitised build; only memory safety is judged here, the functional verdict on those plans belongs to their own checks
+        if (!vg && r.chance(0.17)) {
+            static const std::vector<std::pair<std::string, std::vector<std::string>>> subs = {
+                {"C18", {}}, {"C18", {}}, {"C08", {"api_map"}}, {"C15", {"flow", "bounds"}}, {"C19", {"api_zero", "api_recorded"}}};
+            auto& sub = subs[(size_t)r.range(0, (long)subs.size() - 1)];
+            Scenario* sc = find_scenario(sub.first);
+            if (sc) for (int t = 0; t < 40; t++) {
+                uint64_t ss = r.u64();
+                Plan q = sc->generate(ss, index, tier);
+                bool okmode = sub.second.empty();
+                for (auto& m : sub.second) if (q.get("mode") == m) okmode = true;
+                if (!okmode) continue;
+                if (q.has("nsteps") && q.geti("nsteps") > 3000) q.seti("nsteps", 3000);   // (particle histories: run time under ASan)
+                if (q.has("M")) continue;
+                p.set("mode", "api"); p.set("sub.id", sub.first); p.set("sub.mode", q.get("mode")); p.set("sub.plan", q.text());
+                return p;
+            }
+        }
         SwarmOpts o;
         o.max_grid = tier == "quick" ? 40 : 96; o.min_grid = 8;
         o.max_rot_steps = tier == "quick" ? 6 : 14; o.min_rot_steps = 0;
@@ -176,7 +199,51 @@ struct C17 : Scenario {
         return p;
     }
 
+    // one API-mode plan of another scenario in a forked child: exit 77 = sanitizer report, signal = crash, else fine
+    Outcome run_api(const Plan& plan, RunCtx& rc) const {
+        Outcome o;
+        Scenario* sc = find_scenario(plan.get("sub.id"));
+        if (!sc) { o.set_infra("unknown sub-scenario"); return o; }
+        Plan sub = Plan::parse(plan.get("sub.plan"));
+        std::string errf = rc.workdir + "/api.err";
+        fflush(nullptr);
+        pid_t pid = fork();
+        if (pid < 0) { o.set_infra("fork failed"); return o; }
+        if (pid == 0) {
+            int fe = open(errf.c_str(), O_WRONLY | O_CREAT | O_TRUNC, 0666), fo = open("/dev/null", O_WRONLY);
+            if (fe >= 0) { dup2(fe, 2); close(fe); } if (fo >= 0) { dup2(fo, 1); close(fo); }
+            for (int sg : {SIGSEGV, SIGBUS, SIGFPE, SIGILL, SIGABRT}) signal(sg, SIG_DFL);
+            alarm(240);
+            RunCtx c2; c2.workdir = rc.workdir + "/sub"; c2.tier = rc.tier; make_dir(c2.workdir);
+            Outcome so = sc->run(sub, c2);
+            (void)so;
+            fflush(nullptr);
+            _exit(0);
+        }
+        int status = 0;
+        while (waitpid(pid, &status, 0) < 0 && errno == EINTR) {}
+        std::string err = read_file(errf);
+        o.launches = 0; o.checks = 1;
+        std::string ctx = " [API harness: " + plan.get("sub.id") + " " + plan.get("sub.mode") + " plan]";
+        if (WIFSIGNALED(status)) {
+            if (WTERMSIG(status) == SIGALRM) o.fail("C17.hang", "API-mode plan did not end within 240 s" + ctx);
+            else o.fail("C17.killed_by_signal", "the code under test died with signal " + std::to_string(WTERMSIG(status)) + "; stderr: " + tail(err, 400) + ctx);
+        } else if (WIFEXITED(status) && (WEXITSTATUS(status) == 77 || WEXITSTATUS(status) == 78)) {
+            std::string first, site;
+            for (auto& line : split(err, '\n')) if (contains(line, "ERROR: AddressSanitizer") || contains(line, "runtime error") || contains(line, "Invalid") || contains(line, "uninitialised")) { first = line; break; }
+            for (auto& line : split(err, '\n')) if (contains(line, "/src/") || contains(line, "/inc/")) { site = line; break; }
+            o.fail("C17.sanitizer", (first.empty() ? tail(err, 300) : first.substr(0, 300)) + " at " + site.substr(0, 200) + ctx);
+        } else if (!WIFEXITED(status) || WEXITSTATUS(status) != 0) o.fail("C17.exit_status", "API-mode child ended with status " + std::to_string(WEXITSTATUS(status)) + ctx);
+        o.probe("reach.api_harness." + plan.get("sub.id"));
+        o.probe("cls.api." + plan.get("sub.id") + "." + plan.get("sub.mode"));
+        o.nontrivial = true;
+        o.mixfp(hash_str(plan.get("sub.plan"))); o.mixfp((uint64_t)status);
+        o.sample = "API harness " + plan.get("sub.id") + " " + plan.get("sub.mode") + " -> status " + std::to_string(status);
+        return o;
+    }
+
     Outcome run(const Plan& plan, RunCtx& rc) const override {
+        if (plan.get("mode") == "api") return run_api(plan, rc);
         Outcome o;
         Cfg cfg = Cfg::from_plan(plan);
         Derived d = derive(cfg);
@@ -246,8 +313,14 @@ struct C17 : Scenario {
         return o;
     }
 
-    std::vector<Plan> shrink_candidates(const Plan& p, const Outcome&) const override {
+    std::vector<Plan> shrink_candidates(const Plan& p, const Outcome& last) const override {
         std::vector<Plan> out;
+        if (p.get("mode") == "api") {
+            // shrink the embedded plan with its own scenario's moves
+            Scenario* sc = find_scenario(p.get("sub.id"));
+            if (sc) for (auto& q : sc->shrink_candidates(Plan::parse(p.get("sub.plan")), last)) { Plan n = p; n.set("sub.plan", q.text()); out.push_back(n); }
+            return out;
+        }
         Cfg c = Cfg::from_plan(p);
         auto with = [&](std::function<void(Cfg&, Plan&)> f) { Cfg d = c; Plan q = p; f(d, q); d.to_plan(q); if (!(q == p)) out.push_back(q); };
         auto dropop = [](Plan& q, const std::string& prefix) { std::vector<std::string> keep; for (auto& op : split(q.get("ops"), ',')) if (!op.empty() && !starts_with(op, prefix)) keep.push_back(op); q.set("ops", join(keep, ",")); };
